@@ -58,6 +58,15 @@ def run_one(args):
                             out['violation'] = {'kind': 'native', 'failure': fail, 'obligations_failed': [o['name'] for o in failed]}; return out
             except NotImplementedError:
                 has_oracle = False
+        if out['violation'] is None and has_oracle and r.undecided:
+            # the function left the verified subset: the proof no longer speaks for it, so the stand-in is deepened
+            # (large truncation degrees included: a change may only affect high orders)
+            deep = (7, 9, 12, 16, 24, 33, 40, 65) if not con.cell_shapes(cfg) else (5, 6, 8, 11)
+            for D in deep:
+                n, fail = native.check_kernel(con, cfg, D, 2, (2,), rng)
+                out['native_cells'] += n; out['native_runs'] += 1; out['deep_standin'] = list(deep)
+                if fail:
+                    out['violation'] = {'kind': 'native', 'failure': fail, 'obligations_failed': ['(function undecided: %s)' % r.undecided]}; return out
     except Exception as e:
         out['crash'] = traceback.format_exc()
     return out
